@@ -137,8 +137,17 @@ func (st *StateTable) Add(state *State) {
 	}
 
 	// we don't have enough space in the state table, and
-	// there are no inactive entries
-	panic("Statetable full")
+	// there are no inactive entries: evict the least recently
+	// active one (a flood of connection attempts must not be
+	// able to stop the listener)
+	oldest := 0
+	for i := range *st {
+		if (*st)[i].t.Before((*st)[oldest].t) {
+			oldest = i
+		}
+	}
+
+	(*st)[oldest] = state
 }
 
 // Get will return the state for the ip, port combination
